@@ -416,6 +416,23 @@ func (g *gen) cmd() []string {
 		} else {
 			a = append(a, "junk")
 		}
+	} else if !g.plain && g.t.Bool(25) {
+		// a command that fails late: its LAST field/member name is longer than
+		// the limit, after valid ones were already looked at
+		switch a[0] {
+		case "hdel":
+			if len(a) > 2 {
+				a = append(append([]string{}, a...), strings.Repeat("F", 10241))
+			}
+		case "hmset":
+			if len(a) >= 4 && len(a)%2 == 0 {
+				a = append(append([]string{}, a...), strings.Repeat("F", 10241), "v")
+			}
+		case "zadd":
+			if len(a) >= 4 && len(a)%2 == 0 {
+				a = append(append([]string{}, a...), "1", strings.Repeat("F", 10241))
+			}
+		}
 	}
 	return a
 }
